@@ -61,6 +61,22 @@ def check(case):
             if (ok16 and g16 != r16.to_bytes(2, 'big')) or (ok32 and g32 != r32.to_bytes(4, 'little')):
                 return Fail(f'crc/{name}-input-differs', f'{data.hex()[:80]}: crc16={g16!r} crc32c={g32!r} '
                             f'expected {r16:04x} / {r32.to_bytes(4, "little").hex()}')
+    # a computation that starts while another one is still consuming its input (the byte source of the outer call computes
+    # checksums itself half-way): each call's result is a function of its own input
+    if len(data) >= 2:
+        inner = bytes(data[::-1][:7]) or b'x'
+
+        def src():
+            for i, x in enumerate(data):
+                if i == len(data) // 2:
+                    crc16(inner), crc32c(inner), crc32c(inner, 'big')
+                yield x
+        ok16, g16 = _try(crc16, src())
+        ok32, g32 = _try(crc32c, src())
+        if (ok16 and g16 != r16.to_bytes(2, 'big')) or (ok32 and g32 != r32.to_bytes(4, 'little')):
+            return Fail('crc/nested-call-disturbs-the-outer-one', f'{data.hex()[:80]}: crc16={g16!r} crc32c={g32!r}')
+        if crc16(inner) != refcrc.crc16_xmodem(inner).to_bytes(2, 'big') or crc32c(inner) != refcrc.crc32c(inner).to_bytes(4, 'little'):
+            return Fail('crc/depends-on-earlier-calls/after-nested', inner.hex())
     # a mutable byte string that is changed in place between two calls
     if data:
         ba = bytearray(data)
